@@ -442,10 +442,16 @@ func MergeMapCallSources(a, b MapCallSource) (MapCallSource, error) {
 				return nil, fmt.Errorf("map length mismatch %d vs %d",
 					len(ka), len(kb))
 			}
+			// Name the smallest missing key, so that the message does
+			// not depend on the iteration order.
+			missing, any := "", false
 			for k := range ka {
-				if _, ok := kb[k]; !ok {
-					return nil, fmt.Errorf("map key missing %q", k)
+				if _, ok := kb[k]; !ok && (!any || k < missing) {
+					missing, any = k, true
 				}
+			}
+			if any {
+				return nil, fmt.Errorf("map key missing %q", missing)
 			}
 		case ModeNullMapCall:
 			switch b.CallMode() {
